@@ -506,10 +506,20 @@ def c_forced(op):
         return st.tuples(cmpb, ch, ch).map(lambda t: ["if_else", t[0], t[1], t[2]])
     if op == "if_else_zero":
         return st.tuples(cmpb, ch).map(lambda t: ["if_else_zero", t[0], t[1]])
+    if op == "sel_sum":
+        # a sum of two one-sided selections with unrelated conditions, the second one negated: the same node shape
+        # CasADi uses internally for if_else(c, a, b) = if_else_zero(c, a) + if_else_zero(!c, b), but not that function
+        # (conditions on leaves and mostly leaf values, so that the generated points separate the two conditions)
+        lf = c_leaf()
+        cl = st.tuples(st.sampled_from(CMP), lf, lf).map(lambda t: [t[0], t[1], t[2]])
+        val = st.one_of(lf, lf, ch)
+        return st.tuples(cl, val, cl, val, st.booleans()).map(
+            lambda t: ["add", ["if_else_zero", t[0], t[1]], ["if_else_zero", ["not", t[2]], t[3]]] if t[4] else
+            ["add", ["if_else_zero", ["not", t[0]], t[1]], ["if_else_zero", t[2], t[3]]])
     raise ValueError(op)
 
 
-C2S_OPS = NUM1 + NUM2 + ["cpow", "if_else", "if_else_zero", "lt", "le", "eq", "ne", "and", "or", "not"]
+C2S_OPS = NUM1 + NUM2 + ["cpow", "if_else", "if_else_zero", "lt", "le", "eq", "ne", "and", "or", "not", "sel_sum"]
 
 
 def to_casadi(t, table, nodes=None, perts=None):
@@ -848,7 +858,8 @@ def build(tier):
              s2c_classify, quick=400, thorough=10000),
         Cell("s2c/symtab", symtab_case(), check_symtab, lambda c: any(cc["cse"] for cc in c["calls"]),
              lambda c: ["cse-calls:%d" % sum(1 for cc in c["calls"] if cc["cse"])], quick=250, thorough=6000),
-        Cell("c2s/value", dict([("mixed", c2s_case("num"))] + [(o, c2s_case("num", op=o)) for o in C2S_OPS]), check_c2s, c2s_nontrivial,
+        Cell("c2s/value", dict([("mixed", c2s_case("num"))] + [(o, c2s_case("num", op=o)) for o in C2S_OPS]
+                                + [("sel_sum/%d" % i, c2s_case("num", op="sel_sum")) for i in (2, 3, 4)]), check_c2s, c2s_nontrivial,
              c2s_classify, quick=1100, thorough=30000),
         Cell("c2s/boolean", c2s_case("bool"), check_c2s, c2s_nontrivial, c2s_classify, quick=300, thorough=8000),
         Cell("c2s/matrix", c2s_case("mat"), check_c2s, c2s_nontrivial, c2s_classify, quick=150, thorough=4000),
